@@ -117,6 +117,18 @@ func generate(g *Gen, prop string, n int) {
 		for i := 0; i < n; i++ {
 			g.genTruncationHistory()
 		}
+	case "C03":
+		for i := 0; i < n; i++ {
+			g.genMappingHistory()
+		}
+	case "C19":
+		for i := 0; i < n; i++ {
+			g.genMappingIdentityHistory()
+		}
+	case "C20":
+		for i := 0; i < n; i++ {
+			g.genDatasetHistory()
+		}
 	case "C18":
 		g.genCodec(n)
 	default:
